@@ -69,7 +69,13 @@ def symbols_to_graph(symbols: List[Symbol]) -> 'networkx.DiGraph':  # noqa: F821
 
     G = nx.DiGraph()
 
-    equations = [s.equation for s in symbols if s.equation is not None]
+    # Only endogenous variables carry an equation ('lhs = rhs'): verbatim
+    # blocks keep their code in the same field but define no terms
+    equations = [
+        s.equation
+        for s in symbols
+        if s.equation is not None and s.type == Type.ENDOGENOUS
+    ]
     for e in equations:
         lhs, rhs = e.split('=', maxsplit=1)
         endogenous = [m.group(0) for m in term_re.finditer(lhs)]
